@@ -255,6 +255,11 @@ def run(ctx):
     ctx.check(ok, "C09-R2", "at_least:shape", "at_least(elt, n) = join[repeat_exact(elt, n), zero_or_more(elt)]",
               "at_least no longer is repeat_exact(n) followed by zero_or_more", site=al.where())
 
+    # ------------------------------------------------------------------ R5 "at least one" sequence helper needs a non-zero budget
+    # (shared with C06-R6: bounded_sequence(item, min, max) cannot express zero members)
+    from . import c06 as _c06
+    _c06.bounded_sequence_guard(ctx, "C09-R5")
+
     # ------------------------------------------------------------------ R4 memo caches are private to their function
     # at_most / repeat_exact / string memoise on (element, count): a result stored in the sibling's cache would be
     # returned for a different repetition (x{0,k} stored where x{k} is looked up)
